@@ -147,8 +147,15 @@ def handleSym (op : String) (j : Json) : Except String Json := do
   | "sym.run" =>
     let i ← j.getObjVal? "init"
     let a : InitArgs := ⟨← getBool i "encrypted", ← getTerm i "cfg", ← getTerm i "kdfcfg", ← getTerm i "shcfg", ← getTerm i "pw"⟩
-    let ops ← (← getArr j "ops").toList.mapM parseSymOp
-    let s := run a ops
+    -- `remove_at` = removal of the objects uploaded by the i-th uploads (index into the uploads so far, key files not counted):
+    -- the harness cannot name the model's fresh values, so it names locations by the upload that created them
+    let s ← (← getArr j "ops").toList.foldlM (init := initSt a) fun s oj => do
+      match (← getStr oj "kind") with
+      | "remove_at" =>
+        let idx ← getNatList oj "idx"
+        let ups := s.log.filter (fun e => match e.1 with | .pair pre _ => pre != prefixKey | _ => true)
+        pure (step s (.remove (idx.filterMap (fun i => ups[i]?.map (·.1)))))
+      | _ => do pure (step s (← parseSymOp oj))
     pure (Json.mkObj [("log", pairsJson s.log), ("uses", pairsJson s.uses), ("next", jnat s.next),
                       ("store", pairsJson s.store), ("users", jnat s.users.length)])
   | "sym.restore" =>
